@@ -6,6 +6,8 @@ from collections.abc import Mapping
 from dataclasses import MISSING, fields as dataclass_fields
 from typing import Any, Self
 
+from xknx.exceptions import ConversionError
+
 from ..dpt import DPTComplexData
 from ..dpt_1 import Step
 from ..dpt_3 import ControlDimming
@@ -15,6 +17,8 @@ def pack_control_dimming(step: ControlDimming | None) -> int:
     """Pack a ControlDimming into a single ``r4B1U3`` byte (``0`` if ``None``)."""
     if step is None:
         return 0
+    if not 0 <= step.step_code <= 7:
+        raise ConversionError("Invalid value for step_code: must be 0..7")
     return step.control.value << 3 | step.step_code
 
 
